@@ -179,7 +179,8 @@ fn read_case(rng: &mut Rng) -> String {
         // cut inside or next to the terminator, or anywhere
         let end = stream.windows(4).position(|w| w == b"\r\n\r\n").map(|p| p + 4).unwrap_or(stream.len());
         let a = if rng.chance(2, 3) { end.saturating_sub(rng.range(0, 5) as usize).max(1) } else { rng.range(1, stream.len() as u64) as usize };
-        format!(" split={a}")
+        // ... or a first segment of one to three bytes (a client that types, or drips, its request)
+        if rng.chance(1, 5) { let f = rng.range(1, 3) as usize; if f < a { format!(" split={f},{a}") } else { format!(" split={f}") } } else { format!(" split={a}") }
     } else { String::new() };
     format!("http read {}{}", hex_compact(&stream), split)
 }
@@ -219,6 +220,14 @@ impl Group for HttpGroup {
                 let mut s = gen_wreq(&mut rng, Some(("example.com", false, None)), Some(total)).header;
                 s.extend(std::iter::repeat(b'B').take(extra));
                 v.push(Case { lines: vec![format!("http read {}", hex_compact(&s))] });
+            }
+        }
+        // a first segment shorter than the terminator
+        {
+            let w = gen_wreq(&mut rng, Some(("example.com", false, None)), Some(60)).header;
+            for sp in ["1", "2", "3", "1,2", "1,2,3", "2,4"] {
+                let mut sd = w.clone(); sd.extend_from_slice(b"BODY");
+                v.push(Case { lines: vec![format!("http read {} split={}", hex_compact(&sd), sp)] });
             }
         }
         // the terminator cut at each of its positions by TCP segmentation, small and large blocks
